@@ -26,6 +26,8 @@ def gen_json(rng, depth=0):
             return rng.choice([0.5, -0.25, 1e-7, 1e21, 1.5e300, 3.141592653589793, 1e-320, 0.1, 100.0, 1e20])
         if k < 0.5:
             return rng.choice([True, False, None])
+        if rng.random() < 0.04:
+            return 'L' * rng.choice([65535, 65536, 70000, 200000])        # one line longer than common scanner buffers
         return rng.choice(['', 'plain', 'with "quotes"', 'back\\slash', 'line\nbreak', 'tab\there', '<b>&amp;</b>', 'é…☃', ' ', 'a' * 40, '  lead', '\r\n', '}{][,:'])
     if r < 0.65:
         return [gen_json(rng, depth + 1) for _ in range(rng.randint(0, 4))]
@@ -235,7 +237,11 @@ def check(tier, seed, replay=None):
         pre = rng.choice([b'    ', b'  ', b'', b'\t', b'xy'])
         need = rng.randint(0, 1)
         ind_cases.append((pre, need, p))
-    meta_cases = [render_json(rng, gen_json(rng)) for _ in range(120 if tier == 'quick' else 2000)]
+    meta_cases = []
+    while len(meta_cases) < (120 if tier == 'quick' else 2000):
+        mc = render_json(rng, gen_json(rng))
+        if len(mc) <= 4000:          # very long lines are exercised through export/import above; Coq list literals stay small
+            meta_cases.append(mc)
     if nviol == 0:
         text = ''.join('indent %s %d %s\n' % (pre.hex() or '-', need, p.hex() or '-') for pre, need, p in ind_cases)
         # metadata blocks: a one-document collection per metadata value, the block is cut out of the exported text;
